@@ -110,9 +110,9 @@ def check(run):
     for oi, opts in enumerate(osets):
         z3 = "-solver" in opts
         n = nblocks // 3 if z3 else nblocks
-        texts = corpus + shipped + blockgen.snippet_blocks() + blockgen.gen_blocks(rng.getrandbits(32), n)
+        texts = corpus + shipped + blockgen.snippet_blocks() + blockgen.mem_boundary_blocks() + blockgen.gen_blocks(rng.getrandbits(32), n)
         if z3:
-            texts = corpus + shipped + blockgen.snippet_blocks()[::3] + blockgen.gen_blocks(rng.getrandbits(32), n, max_len=14)
+            texts = corpus + shipped + blockgen.snippet_blocks()[::3] + blockgen.mem_boundary_blocks()[oi % 4::4] + blockgen.gen_blocks(rng.getrandbits(32), n, max_len=14)
         res = pipeline.run_gasol(texts, opts, timeout=90 if z3 else 60)
         for txt, (st, val) in zip(texts, res):
             evaluations += 1
